@@ -10,6 +10,7 @@ import (
 
 	"github.com/enbility/spine-go/api"
 	"github.com/enbility/spine-go/internal/verifh/engine"
+	"github.com/enbility/spine-go/internal/verifh/world"
 	"github.com/enbility/spine-go/spine"
 )
 
@@ -226,6 +227,7 @@ func c15Scenarios() []*engine.SScenario {
 		}}
 	}
 	return []*engine.SScenario{
+		c15CoreLifetime(),
 		mk("publish | subscribe+unsubscribe", []string{"C1", "P1"}, nil, func(b *evBus) []func() {
 			return []func(){func() { b.pub("e1") }, func() { b.sub("P2"); b.unsub("P1") }}
 		}),
@@ -261,6 +263,79 @@ func c15Scenarios() []*engine.SScenario {
 			return []func(){func() { b.sub("P1"); b.sub("C1"); b.sub("C1") }, func() { b.pub("e1") }}
 		}),
 	}
+}
+
+// c15CoreLifetime: the stack's own internal handler (the local device, registered at core level when a
+// connection is set up) must receive the events published while any peer is connected. Observed by
+// behaviour only: a peer that announces itself is answered with the node-management subscription request
+// and the use-case read that this handler issues, and an application handler sees the device event once.
+// One execution enumerates every connect/disconnect history of two peers up to length 4.
+func c15CoreLifetime() *engine.SScenario {
+	return &engine.SScenario{Name: "the stack's core handler over all connect/disconnect histories of two peers (length <= 4)", Run: func(cfg rt.Config) rt.Outcome {
+		var viol []string
+		n := 0
+		res := rt.Execute(cfg, func() {
+			ents := []world.EntSpec{clientEntity([]uint{1})}
+			var rec func(hist []string, conn map[string]bool)
+			check := func(hist []string, conn map[string]bool) {
+				n++
+				w := world.New(true)
+				stdLocal(w)
+				for _, op := range hist {
+					if op[0] == '+' {
+						w.Connect(op[1:], "d"+op[1:]).Ents = ents
+					} else {
+						w.L.RemoveRemoteDeviceConnection(op[1:])
+					}
+					rt.WaitIdle()
+				}
+				for _, p := range []string{"A", "B"} {
+					if !conn[p] {
+						continue
+					}
+					pe := w.Peers[p]
+					m := w.Mark()
+					pe.Deliver(pe.DiscoveryReply(ents))
+					rt.WaitIdle()
+					nsub, nuc := 0, 0
+					for _, o := range w.Since(m) {
+						if o.Conn == pe.W.Name && o.Class == "call" && o.Fn == "NodeManagementSubscriptionRequestCall" {
+							nsub++
+						}
+						if o.Conn == pe.W.Name && o.Class == "read" && o.Fn == "NodeManagementUseCaseData" {
+							nuc++
+						}
+					}
+					nev := evCount(w.EventsSince(m), api.EventTypeDeviceChange, api.ElementChangeAdd)
+					if nsub != 1 || nuc != 1 || nev != 1 {
+						viol = append(viol, fmt.Sprintf("a device event did not reach the stack's internal handler and the application exactly once | history=%s peer=%s subscription requests=%d use-case reads=%d application events=%d", strings.Join(hist, ","), p, nsub, nuc, nev))
+					}
+				}
+			}
+			rec = func(hist []string, conn map[string]bool) {
+				if len(hist) > 0 {
+					check(hist, conn)
+				}
+				if len(hist) == 4 {
+					return
+				}
+				for _, p := range []string{"A", "B"} {
+					op := "+" + p
+					if conn[p] {
+						op = "-" + p
+					}
+					conn[p] = !conn[p]
+					rec(append(append([]string{}, hist...), op), conn)
+					conn[p] = !conn[p]
+				}
+			}
+			rec(nil, map[string]bool{})
+			rt.BeginExplore()
+			rt.WaitIdle()
+			rt.JoinFinished()
+		})
+		return rt.Outcome{Res: res, Violations: append(viol, panicsAndDeadlocks(res)...), Digest: fmt.Sprintf("histories=%d", n)}
+	}}
 }
 
 func init() {
